@@ -65,7 +65,7 @@ def cases(draw, tier="quick", revealing=None):
                 for o_ in outs:
                     o_[2] = base + step * (o_[2] % 2)
         horizon = draw(st.sampled_from([30, 60, 200]))
-    return {"pomdp": spec, "beliefs": beliefs, "revealing": rev,
+    return {"pomdp": spec, "beliefs": beliefs, "revealing": rev, "small_set": draw(st.sampled_from([0, 0, 1, 2])),
             "eps": draw(st.sampled_from([0, 1e-6, 1e-2])), "horizon": horizon,
             "min_exp": draw(st.integers(0, 3)), "extra_exp": draw(st.integers(0, 2))}
 
@@ -101,6 +101,11 @@ def prop_backup(case, ctx):
     B = arr.reachable_beliefs(2)[:12] + masked_beliefs(case, arr, sl)
     if case["revealing"]:
         B = B + [np.eye(arr.n)[s] for s in sl]
+    if case.get("small_set"):
+        # a belief set that does not cover the state space (what a tiny expansion budget gives): the initial belief, or it
+        # and its one-step successors
+        B = arr.reachable_beliefs(case["small_set"] - 1)[:4]
+        ctx.event("small_belief_set")
     Bm = np.array([to_msdm_vec(b, sl) for b in B])
     res = ctx.call("C08.backup.raises", point_based_value_iteration, pomdp, Bm, eps, horizon)
     alphas = np.asarray(res["alpha_vectors"])
@@ -108,7 +113,11 @@ def prop_backup(case, ctx):
     ctx.check(alphas.shape == (len(B), len(sl)), "C08.backup.alpha_shape")
     scale = 1 + max(abs(arr.rmin), abs(arr.rmax)) / (1 - arr.gamma)
     informative = False
-    for b in B:
+    # every alpha vector is the value of a conditional plan, hence a lower bound of the optimum at *every* belief - also at
+    # beliefs outside the set the backups were computed on (point beliefs on every state, the uniform belief)
+    others = [np.eye(arr.n)[s_] for s_ in sl] + [np.array([1.0 / len(sl) if s_ in sl else 0.0 for s_ in range(arr.n)])]
+    others = [b_ for b_ in others if not any(np.allclose(b_, b0_) for b0_ in B)]
+    for b in B + others:
         val = float(np.max(alphas @ to_msdm_vec(b, sl)))
         if it <= 4:      # (the expectimax oracle is exponential in the depth)
             vk = max(arr.vk(b, it), arr.vk(b, it + 1))
@@ -139,7 +148,7 @@ def prop_backup(case, ctx):
                 want = float(np.max(b @ arr.SR))
                 ctx.check(abs(val - want) <= TOL * scale, "C08.backup.one_step_value_is_best_immediate_reward",
                           lambda: f"belief {b.tolist()}: {val} vs {want}")
-            if case["revealing"] and horizon <= 4:
+            if case["revealing"] and horizon <= 4 and not case.get("small_set"):     # (needs every point belief in the set)
                 want = arr.vk(b, horizon)
                 ctx.check(abs(float(np.max(alphas @ to_msdm_vec(b, sl))) - want) <= TOL * scale,
                           "C08.backup.revealing_value_is_k_step_optimum", lambda: f"belief {b.tolist()}: {val} vs V*_{horizon} {want}")
